@@ -5,7 +5,11 @@ import GomlVerif.Model.Resolve
 Property theorems only.  `resolve*` is the implementation model (tied to
 `name_resolution.rs` by the correspondence run of `./check C05`), `spec*` the
 declarative reading (environment only passed down), `scoped*` the names-only
-well-scopedness judgement.
+well-scopedness judgement.  Package-level names (`Globals`: constructors, definitions) are
+the outermost scope: `resolveName` looks the local environment up first.  `conOk*` says that
+AST lowering (`ast/src/lower.rs`, which classifies bare names by spelling before resolution
+runs) called no locally bound name a constructor; `./check C05` evaluates it on the real AST
+of every case, and `resolve_refines_spec` holds under it.
 -/
 namespace Goml.Resolve
 
@@ -42,118 +46,23 @@ theorem resolveParams_eq (ps : List (String × Nat)) (s : St) :
     rw [ih]
     simp [List.append_assoc]
 
-/-! ## P1 — the implementation refines the specification and never leaks a binding -/
+theorem patBinds_names (p : Pat) (n : Nat) : (patBinds p n).1.map (·.1) = patNames p := by
+  apply Pat.rec
+    (motive_1 := fun p => ∀ n, (patBinds p n).1.map (·.1) = patNames p)
+    (motive_2 := fun ps => ∀ n, (patsBinds ps n).1.map (·.1) = patsNames ps)
+  · intro x tag n; simp [patBinds, patNames]
+  · intro ps ih n; simpa [patBinds, patNames] using ih n
+  · intro n; simp [patsBinds, patsNames]
+  · intro p ps ihp ihps n; simp [patsBinds, patsNames, ihp, ihps]
 
-/-- For every expression and every incoming state: the resolver's output is the
-    specification's output, and the environment it leaves behind is exactly the one
-    it was given ("bindings never leak"). -/
-theorem resolve_refines_spec (e : Expr) (s : St) :
-    resolveExpr e s =
-      { env := s.env, next := (specExpr s.env s.next e).next,
-        out := s.out ++ (specExpr s.env s.next e).evs } := by
-  apply Expr.rec
-    (motive_1 := fun e => ∀ s, resolveExpr e s =
-      { env := s.env, next := (specExpr s.env s.next e).next,
-        out := s.out ++ (specExpr s.env s.next e).evs })
-    (motive_2 := fun it => ∀ s rest,
-      (∀ s', resolveItems rest s' =
-        { env := (resolveItems rest s').env, next := (specItems s'.env s'.next rest).next,
-          out := s'.out ++ (specItems s'.env s'.next rest).evs }) →
-      resolveItems (it :: rest) s =
-        { env := (resolveItems (it :: rest) s).env,
-          next := (specItems s.env s.next (it :: rest)).next,
-          out := s.out ++ (specItems s.env s.next (it :: rest)).evs })
-    (motive_3 := fun a => ∀ s rest,
-      (∀ s', resolveArms rest s' =
-        { env := s'.env, next := (specArms s'.env s'.next rest).next,
-          out := s'.out ++ (specArms s'.env s'.next rest).evs }) →
-      resolveArms (a :: rest) s =
-        { env := s.env, next := (specArms s.env s.next (a :: rest)).next,
-          out := s.out ++ (specArms s.env s.next (a :: rest)).evs })
-    (motive_4 := fun es => ∀ s, resolveList es s =
-      { env := s.env, next := (specList s.env s.next es).next,
-        out := s.out ++ (specList s.env s.next es).evs })
-    (motive_5 := fun items => ∀ s, resolveItems items s =
-      { env := (resolveItems items s).env, next := (specItems s.env s.next items).next,
-        out := s.out ++ (specItems s.env s.next items).evs })
-    (motive_6 := fun arms => ∀ s, resolveArms arms s =
-      { env := s.env, next := (specArms s.env s.next arms).next,
-        out := s.out ++ (specArms s.env s.next arms).evs })
-  -- Expr.var
-  · intro x tag s; simp [resolveExpr, specExpr]
-  -- Expr.node
-  · intro es ih s; simpa [resolveExpr, specExpr] using ih s
-  -- Expr.block
-  · intro items ih s
-    simp only [resolveExpr, specExpr]
-    rw [ih s]
-  -- Expr.matchE
-  · intro scrut arms ihs iha s
-    simp only [resolveExpr, specExpr]
-    rw [ihs s, iha]
-    simp [List.append_assoc]
-  -- Expr.closure
-  · intro ps body ih s
-    simp only [resolveExpr, specExpr]
-    rw [resolveParams_eq, ih]
-    simp [List.append_assoc]
-  -- Item.letI
-  · intro p v ihv s rest hrest
-    simp only [resolveItems, specItems]
-    rw [ihv s, resolvePat_eq, hrest]
-    simp [List.append_assoc]
-  -- Item.exprI
-  · intro e ihe s rest hrest
-    simp only [resolveItems, specItems]
-    rw [ihe s, hrest]
-    simp [List.append_assoc]
-  -- Arm.mk
-  · intro p body ihb s rest hrest
-    simp only [resolveArms, specArms]
-    rw [resolvePat_eq, ihb, hrest]
-    simp [List.append_assoc]
-  -- List Expr
-  · intro s; simp [resolveList, specList]
-  · intro e es ihe ihes s
-    simp only [resolveList, specList]
-    rw [ihe s, ihes]
-    simp [List.append_assoc]
-  -- List Item
-  · intro s; simp [resolveItems, specItems]
-  · intro it rest ihit ihrest s
-    exact ihit s rest ihrest
-  -- List Arm
-  · intro s; simp [resolveArms, specArms]
-  · intro a rest iha ihrest s
-    exact iha s rest ihrest
+theorem paramBinds_names (ps : List (String × Nat)) (n : Nat) :
+    (paramBinds ps n).1.map (·.1) = ps.map (·.1) := by
+  induction ps generalizing n with
+  | nil => simp [paramBinds]
+  | cons p ps ih => obtain ⟨x, t⟩ := p; simp [paramBinds, ih]
 
-/-- whole functions: parameters are bound first, then the body is resolved. -/
-theorem resolveFn_refines_spec (params : List (String × Nat)) (body : Expr) :
-    (resolveFn params body).out = (specFn params body).evs ∧
-    (resolveFn params body).next = (specFn params body).next := by
-  unfold resolveFn specFn
-  rw [resolve_refines_spec, resolveParams_eq]
-  simp
-
-/-! ## P2 — innermost binding wins; shadowing is by name only -/
-
-theorem innermost_wins (env : Env) (x : String) (i : Nat) :
-    lookup (env ++ [(x, i)]) x = some i := by
-  simp [lookup, List.reverse_append]
-
-theorem other_name_transparent (env : Env) (x y : String) (i : Nat) (h : y ≠ x) :
-    lookup (env ++ [(y, i)]) x = lookup env x := by
-  simp [lookup, List.reverse_append, h]
-
-theorem lookup_append (env ext : Env) (x : String) :
-    lookup (env ++ ext) x = match lookup ext x with
-      | some i => some i
-      | none => lookup env x := by
-  simp only [lookup, List.reverse_append, List.find?_append]
-  cases h : List.find? (fun p => p.1 == x) ext.reverse <;> simp
-
-/-- a use is unresolved exactly when no enclosing binder has that name -/
-theorem unresolved_iff (env : Env) (x : String) :
+/-- the local environment has no entry for `x` exactly when no enclosing binder has that name -/
+theorem lookup_none_iff (env : Env) (x : String) :
     lookup env x = none ↔ x ∉ env.map (·.1) := by
   unfold lookup
   cases h : List.find? (fun p => p.1 == x) env.reverse with
@@ -169,16 +78,248 @@ theorem unresolved_iff (env : Env) (x : String) :
     have hm := List.mem_of_find?_eq_some h
     exact List.mem_map.2 ⟨p, by simpa using hm, by simpa using this⟩
 
-/-! ## P3 — accepted for scoping reasons iff well-scoped by the lexical rules -/
+theorem lookup_isSome_iff (env : Env) (x : String) :
+    (lookup env x).isSome = (env.map (·.1)).contains x := by
+  have h := lookup_none_iff env x
+  cases hl : lookup env x with
+  | none =>
+    have := h.1 hl
+    simp only [Option.isSome_none]
+    symm
+    simpa [List.contains_iff_mem] using this
+  | some i =>
+    have : ¬ (x ∉ env.map (·.1)) := fun hc => by
+      have := h.2 hc; rw [hl] at this; cases this
+    simp only [Option.isSome_some]
+    symm
+    simpa [List.contains_iff_mem] using this
 
-theorem patBinds_names (p : Pat) (n : Nat) : (patBinds p n).1.map (·.1) = patNames p := by
-  apply Pat.rec
-    (motive_1 := fun p => ∀ n, (patBinds p n).1.map (·.1) = patNames p)
-    (motive_2 := fun ps => ∀ n, (patsBinds ps n).1.map (·.1) = patsNames ps)
-  · intro x tag n; simp [patBinds, patNames]
-  · intro ps ih n; simpa [patBinds, patNames] using ih n
-  · intro n; simp [patsBinds, patsNames]
-  · intro p ps ihp ihps n; simp [patsBinds, patsNames, ihp, ihps]
+/-- a bare name with no local binder in scope that names a constructor resolves to it -/
+theorem resolveName_ctor_of (G : Globals) (env : Env) (x : String)
+    (h1 : (env.map (·.1)).contains x = false) (h2 : G.ctors.contains x = true) :
+    resolveName G env x = .ctor := by
+  have h := lookup_isSome_iff env x
+  rw [h1] at h
+  cases hl : lookup env x with
+  | none =>
+    have h2' : x ∈ G.ctors := by simpa using h2
+    simp [resolveName, hl, h2']
+  | some i => rw [hl] at h; cases h
+
+/-! ## P1 — the implementation refines the specification and never leaks a binding -/
+
+/-- For every expression and every incoming state: provided AST lowering called no locally
+    bound name a constructor (`conOkExpr`, evaluated on the real AST by the check), the
+    resolver's output is the specification's output — every bare name refers to the innermost
+    enclosing local binder of that name, and to a constructor or definition only when there is
+    none — and the environment it leaves behind is exactly the one it was given ("bindings
+    never leak"). -/
+theorem resolve_refines_spec (G : Globals) (e : Expr) (s : St)
+    (h : conOkExpr G (s.env.map (·.1)) e = true) :
+    resolveExpr G e s =
+      { env := s.env, next := (specExpr G s.env s.next e).next,
+        out := s.out ++ (specExpr G s.env s.next e).evs } := by
+  revert s
+  apply Expr.rec
+    (motive_1 := fun e => ∀ s, conOkExpr G (s.env.map (·.1)) e = true → resolveExpr G e s =
+      { env := s.env, next := (specExpr G s.env s.next e).next,
+        out := s.out ++ (specExpr G s.env s.next e).evs })
+    (motive_2 := fun it => ∀ s rest,
+      (∀ s', conOkItems G (s'.env.map (·.1)) rest = true → resolveItems G rest s' =
+        { env := (resolveItems G rest s').env, next := (specItems G s'.env s'.next rest).next,
+          out := s'.out ++ (specItems G s'.env s'.next rest).evs }) →
+      conOkItems G (s.env.map (·.1)) (it :: rest) = true →
+      resolveItems G (it :: rest) s =
+        { env := (resolveItems G (it :: rest) s).env,
+          next := (specItems G s.env s.next (it :: rest)).next,
+          out := s.out ++ (specItems G s.env s.next (it :: rest)).evs })
+    (motive_3 := fun a => ∀ s rest,
+      (∀ s', conOkArms G (s'.env.map (·.1)) rest = true → resolveArms G rest s' =
+        { env := s'.env, next := (specArms G s'.env s'.next rest).next,
+          out := s'.out ++ (specArms G s'.env s'.next rest).evs }) →
+      conOkArms G (s.env.map (·.1)) (a :: rest) = true →
+      resolveArms G (a :: rest) s =
+        { env := s.env, next := (specArms G s.env s.next (a :: rest)).next,
+          out := s.out ++ (specArms G s.env s.next (a :: rest)).evs })
+    (motive_4 := fun es => ∀ s, conOkList G (s.env.map (·.1)) es = true → resolveList G es s =
+      { env := s.env, next := (specList G s.env s.next es).next,
+        out := s.out ++ (specList G s.env s.next es).evs })
+    (motive_5 := fun items => ∀ s, conOkItems G (s.env.map (·.1)) items = true →
+      resolveItems G items s =
+      { env := (resolveItems G items s).env, next := (specItems G s.env s.next items).next,
+        out := s.out ++ (specItems G s.env s.next items).evs })
+    (motive_6 := fun arms => ∀ s, conOkArms G (s.env.map (·.1)) arms = true →
+      resolveArms G arms s =
+      { env := s.env, next := (specArms G s.env s.next arms).next,
+        out := s.out ++ (specArms G s.env s.next arms).evs })
+  -- Expr.var
+  · intro x tag s _; simp [resolveExpr, specExpr]
+  -- Expr.con
+  · intro x tag args ih s h
+    simp only [conOkExpr, Bool.and_eq_true, Bool.not_eq_true'] at h
+    obtain ⟨⟨h1, h2⟩, h3⟩ := h
+    simp only [resolveExpr, specExpr]
+    rw [ih { s with out := s.out ++ [Ev.use tag .ctor] } h3, resolveName_ctor_of G s.env x h1 h2]
+    simp
+  -- Expr.node
+  · intro es ih s h
+    simp only [conOkExpr] at h
+    simpa [resolveExpr, specExpr] using ih s h
+  -- Expr.block
+  · intro items ih s h
+    simp only [conOkExpr] at h
+    simp only [resolveExpr, specExpr]
+    rw [ih s h]
+  -- Expr.matchE
+  · intro scrut arms ihs iha s h
+    simp only [conOkExpr, Bool.and_eq_true] at h
+    simp only [resolveExpr, specExpr]
+    rw [ihs s h.1, iha]
+    · simp [List.append_assoc]
+    · exact h.2
+  -- Expr.closure
+  · intro ps body ih s h
+    simp only [conOkExpr] at h
+    simp only [resolveExpr, specExpr]
+    rw [resolveParams_eq, ih]
+    · simp [List.append_assoc]
+    · simpa [paramBinds_names] using h
+  -- Item.letI
+  · intro p v ihv s rest hrest h
+    simp only [conOkItems, Bool.and_eq_true] at h
+    simp only [resolveItems, specItems]
+    rw [ihv s h.1, resolvePat_eq, hrest]
+    · simp [List.append_assoc]
+    · simpa [patBinds_names] using h.2
+  -- Item.exprI
+  · intro e ihe s rest hrest h
+    simp only [conOkItems, Bool.and_eq_true] at h
+    simp only [resolveItems, specItems]
+    rw [ihe s h.1, hrest]
+    · simp [List.append_assoc]
+    · exact h.2
+  -- Arm.mk
+  · intro p body ihb s rest hrest h
+    simp only [conOkArms, Bool.and_eq_true] at h
+    simp only [resolveArms, specArms]
+    rw [resolvePat_eq, ihb, hrest]
+    · simp [List.append_assoc]
+    · exact h.2
+    · simpa [patBinds_names] using h.1
+  -- List Expr
+  · intro s _; simp [resolveList, specList]
+  · intro e es ihe ihes s h
+    simp only [conOkList, Bool.and_eq_true] at h
+    simp only [resolveList, specList]
+    rw [ihe s h.1, ihes]
+    · simp [List.append_assoc]
+    · exact h.2
+  -- List Item
+  · intro s _; simp [resolveItems, specItems]
+  · intro it rest ihit ihrest s h
+    exact ihit s rest ihrest h
+  -- List Arm
+  · intro s _; simp [resolveArms, specArms]
+  · intro a rest iha ihrest s h
+    exact iha s rest ihrest h
+
+/-- whole functions: parameters are bound first (one fresh id each), then the body is resolved. -/
+theorem resolveFn_refines_spec (G : Globals) (params : List (String × Nat)) (body : Expr)
+    (h : conOkExpr G (params.map (·.1)) body = true) :
+    (resolveFn G params body).out = (specFn G params body).evs ∧
+    (resolveFn G params body).next = (specFn G params body).next := by
+  unfold resolveFn specFn
+  rw [resolveParams_eq, resolve_refines_spec]
+  · simp
+  · simpa [paramBinds_names] using h
+
+/-! ## P2 — innermost binding wins, also against constructors and definitions -/
+
+theorem lookup_innermost (env : Env) (x : String) (i : Nat) :
+    lookup (env ++ [(x, i)]) x = some i := by
+  simp [lookup, List.reverse_append]
+
+/-- **The innermost local binder wins**, whatever the package declares: after a binder of `x`
+    a bare `x` refers to that binder — not to an outer or earlier binder of the same name, not to
+    a constructor `x`, not to a function `x`. -/
+theorem innermost_wins (G : Globals) (env : Env) (x : String) (i : Nat) :
+    resolveName G (env ++ [(x, i)]) x = .loc i := by
+  simp [resolveName, lookup_innermost]
+
+theorem lookup_other (env : Env) (x y : String) (i : Nat) (h : y ≠ x) :
+    lookup (env ++ [(y, i)]) x = lookup env x := by
+  simp [lookup, List.reverse_append, h]
+
+/-- a binder of another name changes nothing -/
+theorem other_name_transparent (G : Globals) (env : Env) (x y : String) (i : Nat) (h : y ≠ x) :
+    resolveName G (env ++ [(y, i)]) x = resolveName G env x := by
+  simp [resolveName, lookup_other env x y i h]
+
+theorem lookup_append (env ext : Env) (x : String) :
+    lookup (env ++ ext) x = match lookup ext x with
+      | some i => some i
+      | none => lookup env x := by
+  simp only [lookup, List.reverse_append, List.find?_append]
+  cases h : List.find? (fun p => p.1 == x) ext.reverse <;> simp
+
+/-- a bare name refers to a local binder exactly when one is in scope … -/
+theorem local_iff (G : Globals) (env : Env) (x : String) :
+    (∃ i, resolveName G env x = .loc i) ↔ x ∈ env.map (·.1) := by
+  have h := lookup_none_iff env x
+  unfold resolveName
+  cases hl : lookup env x with
+  | some i =>
+    have : ¬ (x ∉ env.map (·.1)) := fun hc => by have := h.2 hc; rw [hl] at this; cases this
+    simp only [Ref.loc.injEq, exists_eq', true_iff]
+    exact Decidable.not_not.1 this
+  | none =>
+    have hn := h.1 hl
+    simp only [hn, iff_false, not_exists]
+    intro i
+    split <;> (try split) <;> simp
+
+/-- … to a constructor exactly when no local binder is in scope and the package has one … -/
+theorem ctor_iff (G : Globals) (env : Env) (x : String) :
+    resolveName G env x = .ctor ↔ x ∉ env.map (·.1) ∧ x ∈ G.ctors := by
+  have h := lookup_none_iff env x
+  unfold resolveName
+  cases hl : lookup env x with
+  | some i =>
+    have hm : x ∈ env.map (·.1) := Decidable.not_not.1 fun hc => by
+      have := h.2 hc; rw [hl] at this; cases this
+    simp only [reduceCtorEq, false_iff]
+    exact fun hh => hh.1 hm
+  | none =>
+    have hn := h.1 hl
+    by_cases hc : x ∈ G.ctors
+    · simp [hc, hn]
+    · by_cases hd : x ∈ G.defs <;> simp [hc, hd, hn]
+
+/-- … and is unresolved exactly when neither a binder nor a package-level name exists -/
+theorem unresolved_iff (G : Globals) (env : Env) (x : String) :
+    resolveName G env x = .unbound ↔ x ∉ env.map (·.1) ∧ x ∉ G.ctors ∧ x ∉ G.defs := by
+  have h := lookup_none_iff env x
+  unfold resolveName
+  cases hl : lookup env x with
+  | some i =>
+    have hm : x ∈ env.map (·.1) := Decidable.not_not.1 fun hc => by
+      have := h.2 hc; rw [hl] at this; cases this
+    simp only [reduceCtorEq, false_iff]
+    exact fun hh => hh.1 hm
+  | none =>
+    have hn := h.1 hl
+    by_cases hc : x ∈ G.ctors
+    · simp [hc]
+    · by_cases hd : x ∈ G.defs <;> simp [hc, hd, hn]
+
+/-- two binders of one name in one parameter list / pattern: the later one is the binder of
+    every use that follows (each has an id of its own, see `binder_ids_fresh`) -/
+theorem duplicate_later_wins (G : Globals) (env : Env) (x : String) (i j : Nat) :
+    resolveName G (env ++ [(x, i), (x, j)]) x = .loc j := by
+  have : env ++ [(x, i), (x, j)] = (env ++ [(x, i)]) ++ [(x, j)] := by simp
+  rw [this, innermost_wins]
+
+/-! ## P3 — accepted for scoping reasons iff well-scoped by the lexical rules -/
 
 theorem patBinds_binds_only (p : Pat) (n : Nat) : allResolved (patBinds p n).2.1 = true := by
   apply Pat.rec
@@ -195,12 +336,6 @@ theorem patBinds_binds_only (p : Pat) (n : Nat) : allResolved (patBinds p n).2.1
     rintro e (he | he)
     · exact h1 e he
     · exact h2 e he
-
-theorem paramBinds_names (ps : List (String × Nat)) (n : Nat) :
-    (paramBinds ps n).1.map (·.1) = ps.map (·.1) := by
-  induction ps generalizing n with
-  | nil => simp [paramBinds]
-  | cons p ps ih => obtain ⟨x, t⟩ := p; simp [paramBinds, ih]
 
 theorem paramBinds_binds_only (ps : List (String × Nat)) (n : Nat) :
     allResolved (paramBinds ps n).2.1 = true := by
@@ -219,61 +354,80 @@ theorem allResolved_append (a b : List Ev) :
     allResolved (a ++ b) = (allResolved a && allResolved b) := by
   simp [allResolved, List.all_append]
 
-theorem lookup_isSome_iff (env : Env) (x : String) :
-    (lookup env x).isSome = (env.map (·.1)).contains x := by
-  have h := unresolved_iff env x
-  cases hl : lookup env x with
-  | none =>
-    have := h.1 hl
-    simp only [Option.isSome_none]
-    symm
-    simpa [List.contains_iff_mem] using this
-  | some i =>
-    have : ¬ (x ∉ env.map (·.1)) := fun hc => by
-      have := h.2 hc; rw [hl] at this; cases this
-    simp only [Option.isSome_some]
-    symm
-    simpa [List.contains_iff_mem] using this
+/-- the names in scope: package-level names outermost, then the local binders -/
+def scopeNames (G : Globals) (env : Env) : List String := G.ctors ++ G.defs ++ env.map (·.1)
 
-/-- **Acceptance = lexical well-scopedness.** Under an environment whose names are `Γ`,
-    every use in `e` is resolved by the specification iff `e` is well-scoped in `Γ`;
-    with `resolve_refines_spec` the same holds for the implementation model. -/
-theorem spec_resolved_iff_scoped (e : Expr) (env : Env) (n : Nat) :
-    allResolved (specExpr env n e).evs = scopedExpr (env.map (·.1)) e := by
+theorem use_resolved_iff (G : Globals) (env : Env) (x : String) (tag : Nat) :
+    allResolved [Ev.use tag (resolveName G env x)] = (scopeNames G env).contains x := by
+  have hu := unresolved_iff G env x
+  by_cases hc : (scopeNames G env).contains x = true
+  · rw [hc]
+    have : ¬ (resolveName G env x = .unbound) := fun hh => by
+      have := hu.1 hh
+      simp only [scopeNames, List.contains_iff_mem, List.mem_append] at hc
+      rcases hc with (hc | hc) | hc
+      · exact this.2.1 hc
+      · exact this.2.2 hc
+      · exact this.1 hc
+    cases hr : resolveName G env x <;> simp_all [allResolved]
+  · have hc' : (scopeNames G env).contains x = false := by simpa using hc
+    rw [hc']
+    have : resolveName G env x = .unbound := hu.2 (by
+      simp only [scopeNames, List.contains_iff_mem, List.mem_append, not_or] at hc
+      exact ⟨hc.2, hc.1.1, hc.1.2⟩)
+    simp [this, allResolved]
+
+theorem scopeNames_append_pat (G : Globals) (env : Env) (p : Pat) (n : Nat) :
+    scopeNames G (env ++ (patBinds p n).1) = scopeNames G env ++ patNames p := by
+  simp [scopeNames, patBinds_names, List.append_assoc]
+
+theorem scopeNames_append_params (G : Globals) (env : Env) (ps : List (String × Nat)) (n : Nat) :
+    scopeNames G (env ++ (paramBinds ps n).1) = scopeNames G env ++ ps.map (·.1) := by
+  simp [scopeNames, paramBinds_names, List.append_assoc]
+
+/-- **Acceptance = lexical well-scopedness.** With the package-level names as the outermost
+    scope and the names of `env` inside them, every use in `e` is resolved by the specification
+    iff `e` is well-scoped; with `resolve_refines_spec` the same holds for the implementation
+    model. -/
+theorem spec_resolved_iff_scoped (G : Globals) (e : Expr) (env : Env) (n : Nat) :
+    allResolved (specExpr G env n e).evs = scopedExpr (scopeNames G env) e := by
+  revert env n
   apply Expr.rec
     (motive_1 := fun e => ∀ env n,
-      allResolved (specExpr env n e).evs = scopedExpr (env.map (·.1)) e)
+      allResolved (specExpr G env n e).evs = scopedExpr (scopeNames G env) e)
     (motive_2 := fun it => ∀ env n rest,
-      (∀ env n, allResolved (specItems env n rest).evs = scopedItems (env.map (·.1)) rest) →
-      allResolved (specItems env n (it :: rest)).evs = scopedItems (env.map (·.1)) (it :: rest))
+      (∀ env n, allResolved (specItems G env n rest).evs = scopedItems (scopeNames G env) rest) →
+      allResolved (specItems G env n (it :: rest)).evs
+        = scopedItems (scopeNames G env) (it :: rest))
     (motive_3 := fun a => ∀ env n rest,
-      (∀ env n, allResolved (specArms env n rest).evs = scopedArms (env.map (·.1)) rest) →
-      allResolved (specArms env n (a :: rest)).evs = scopedArms (env.map (·.1)) (a :: rest))
+      (∀ env n, allResolved (specArms G env n rest).evs = scopedArms (scopeNames G env) rest) →
+      allResolved (specArms G env n (a :: rest)).evs = scopedArms (scopeNames G env) (a :: rest))
     (motive_4 := fun es => ∀ env n,
-      allResolved (specList env n es).evs = scopedList (env.map (·.1)) es)
+      allResolved (specList G env n es).evs = scopedList (scopeNames G env) es)
     (motive_5 := fun items => ∀ env n,
-      allResolved (specItems env n items).evs = scopedItems (env.map (·.1)) items)
+      allResolved (specItems G env n items).evs = scopedItems (scopeNames G env) items)
     (motive_6 := fun arms => ∀ env n,
-      allResolved (specArms env n arms).evs = scopedArms (env.map (·.1)) arms)
+      allResolved (specArms G env n arms).evs = scopedArms (scopeNames G env) arms)
   · intro x tag env n
-    simp only [specExpr, scopedExpr, allResolved, List.all_cons, List.all_nil, Bool.and_true]
-    rw [← lookup_isSome_iff]
-    cases lookup env x <;> rfl
+    simp only [specExpr, scopedExpr, use_resolved_iff]
+  · intro x tag args ih env n
+    simp only [specExpr, scopedExpr]
+    rw [← List.singleton_append, allResolved_append, use_resolved_iff, ih]
   · intro es ih env n; simpa [specExpr, scopedExpr] using ih env n
   · intro items ih env n; simpa [specExpr, scopedExpr] using ih env n
   · intro scrut arms ihs iha env n
     simp only [specExpr, scopedExpr, allResolved_append, ihs, iha]
   · intro ps body ih env n
     simp only [specExpr, scopedExpr, allResolved_append, paramBinds_binds_only, Bool.true_and, ih,
-      List.map_append, paramBinds_names]
+      scopeNames_append_params]
   · intro p v ihv env n rest hrest
     simp only [specItems, scopedItems, allResolved_append, ihv, patBinds_binds_only, hrest,
-      Bool.and_true, List.map_append, patBinds_names]
+      Bool.and_true, scopeNames_append_pat]
   · intro e ihe env n rest hrest
     simp only [specItems, scopedItems, allResolved_append, ihe, hrest]
   · intro p body ihb env n rest hrest
     simp only [specArms, scopedArms, allResolved_append, patBinds_binds_only, Bool.true_and, ihb,
-      hrest, List.map_append, patBinds_names]
+      hrest, scopeNames_append_pat]
   · intro env n; simp [specList, scopedList, allResolved]
   · intro e es ihe ihes env n
     simp only [specList, scopedList, allResolved_append, ihe, ihes]
@@ -283,25 +437,136 @@ theorem spec_resolved_iff_scoped (e : Expr) (env : Env) (n : Nat) :
   · intro a rest iha ihrest env n; exact iha env n rest ihrest
 
 /-- the same statement for the implementation model, from an empty output buffer -/
-theorem resolve_accepts_iff_scoped (e : Expr) (env : Env) (n : Nat) :
-    allResolved (resolveExpr e { env := env, next := n, out := [] }).out
-      = scopedExpr (env.map (·.1)) e := by
-  rw [resolve_refines_spec]; simpa using spec_resolved_iff_scoped e env n
+theorem resolve_accepts_iff_scoped (G : Globals) (e : Expr) (env : Env) (n : Nat)
+    (h : conOkExpr G (env.map (·.1)) e = true) :
+    allResolved (resolveExpr G e { env := env, next := n, out := [] }).out
+      = scopedExpr (scopeNames G env) e := by
+  rw [resolve_refines_spec G e _ h]; simpa using spec_resolved_iff_scoped G e env n
 
 /-! ## P4 — shadowing never changes what outer or earlier uses refer to -/
 
 /-- earlier output is never rewritten: what was resolved before `e` stays resolved the same way -/
-theorem earlier_uses_unchanged (e : Expr) (s : St) :
-    ∃ ext, (resolveExpr e s).out = s.out ++ ext := by
-  rw [resolve_refines_spec]; exact ⟨_, rfl⟩
+theorem earlier_uses_unchanged (G : Globals) (e : Expr) (s : St)
+    (h : conOkExpr G (s.env.map (·.1)) e = true) :
+    ∃ ext, (resolveExpr G e s).out = s.out ++ ext := by
+  rw [resolve_refines_spec G e s h]; exact ⟨_, rfl⟩
 
 /-- a later sibling is resolved in the *same* environment as its predecessor, whatever the
     predecessor bound inside itself (only the id counter advances) -/
-theorem later_sibling_env (e : Expr) (es : List Expr) (s : St) :
-    resolveList (e :: es) s = resolveList es
-      { env := s.env, next := (specExpr s.env s.next e).next,
-        out := s.out ++ (specExpr s.env s.next e).evs } := by
-  simp only [resolveList]; rw [resolve_refines_spec]
+theorem later_sibling_env (G : Globals) (e : Expr) (es : List Expr) (s : St)
+    (h : conOkExpr G (s.env.map (·.1)) e = true) :
+    resolveList G (e :: es) s = resolveList G es
+      { env := s.env, next := (specExpr G s.env s.next e).next,
+        out := s.out ++ (specExpr G s.env s.next e).evs } := by
+  simp only [resolveList]; rw [resolve_refines_spec G e s h]
+
+/-! ## P5 — every binder occurrence has an identity of its own -/
+
+/-- `evs` hands out exactly the ids `n, n+1, …, m-1`, in order -/
+def Fresh (n : Nat) (evs : List Ev) (m : Nat) : Prop :=
+  n ≤ m ∧ bindIds evs = List.range' n (m - n)
+
+theorem Fresh.nil (n : Nat) : Fresh n [] n := by simp [Fresh, bindIds]
+
+theorem bindIds_append (a b : List Ev) : bindIds (a ++ b) = bindIds a ++ bindIds b := by
+  simp [bindIds, List.filterMap_append]
+
+theorem Fresh.append {n m k : Nat} {a b : List Ev} (h1 : Fresh n a m) (h2 : Fresh m b k) :
+    Fresh n (a ++ b) k := by
+  obtain ⟨l1, e1⟩ := h1
+  obtain ⟨l2, e2⟩ := h2
+  refine ⟨Nat.le_trans l1 l2, ?_⟩
+  rw [bindIds_append, e1, e2]
+  have : k - n = (m - n) + (k - m) := by omega
+  rw [this, ← List.range'_append_1]
+  congr 2; omega
+
+theorem Fresh.use (n tag : Nat) (r : Ref) : Fresh n [Ev.use tag r] n := by
+  simp [Fresh, bindIds]
+
+theorem patBinds_fresh (p : Pat) (n : Nat) : Fresh n (patBinds p n).2.1 (patBinds p n).2.2 := by
+  revert n
+  apply Pat.rec
+    (motive_1 := fun p => ∀ n, Fresh n (patBinds p n).2.1 (patBinds p n).2.2)
+    (motive_2 := fun ps => ∀ n, Fresh n (patsBinds ps n).2.1 (patsBinds ps n).2.2)
+  · intro x tag n; simp [patBinds, Fresh, bindIds]
+  · intro ps ih n; simpa [patBinds] using ih n
+  · intro n; simpa [patsBinds] using Fresh.nil n
+  · intro p ps ihp ihps n
+    simp only [patsBinds]
+    exact (ihp n).append (ihps _)
+
+theorem paramBinds_fresh (ps : List (String × Nat)) (n : Nat) :
+    Fresh n (paramBinds ps n).2.1 (paramBinds ps n).2.2 := by
+  induction ps generalizing n with
+  | nil => simpa [paramBinds] using Fresh.nil n
+  | cons p ps ih =>
+    obtain ⟨x, t⟩ := p
+    simp only [paramBinds]
+    have h0 : Fresh n [Ev.bind n t] (n + 1) := by simp [Fresh, bindIds]
+    exact h0.append (ih (n + 1))
+
+/-- **Every binder occurrence gets an id of its own**: the ids handed out while resolving `e`
+    are exactly `n, n+1, …` in traversal order — so two binders never share an id, in
+    particular not two parameters, closure parameters or pattern variables of the same name. -/
+theorem spec_binder_ids_fresh (G : Globals) (e : Expr) (env : Env) (n : Nat) :
+    Fresh n (specExpr G env n e).evs (specExpr G env n e).next := by
+  revert env n
+  apply Expr.rec
+    (motive_1 := fun e => ∀ env n, Fresh n (specExpr G env n e).evs (specExpr G env n e).next)
+    (motive_2 := fun it => ∀ env n rest,
+      (∀ env n, Fresh n (specItems G env n rest).evs (specItems G env n rest).next) →
+      Fresh n (specItems G env n (it :: rest)).evs (specItems G env n (it :: rest)).next)
+    (motive_3 := fun a => ∀ env n rest,
+      (∀ env n, Fresh n (specArms G env n rest).evs (specArms G env n rest).next) →
+      Fresh n (specArms G env n (a :: rest)).evs (specArms G env n (a :: rest)).next)
+    (motive_4 := fun es => ∀ env n, Fresh n (specList G env n es).evs (specList G env n es).next)
+    (motive_5 := fun items => ∀ env n,
+      Fresh n (specItems G env n items).evs (specItems G env n items).next)
+    (motive_6 := fun arms => ∀ env n,
+      Fresh n (specArms G env n arms).evs (specArms G env n arms).next)
+  · intro x tag env n; simpa [specExpr] using Fresh.use n tag _
+  · intro x tag args ih env n
+    simp only [specExpr]
+    rw [← List.singleton_append]
+    exact (Fresh.use n tag _).append (ih env n)
+  · intro es ih env n; simpa [specExpr] using ih env n
+  · intro items ih env n; simpa [specExpr] using ih env n
+  · intro scrut arms ihs iha env n
+    simp only [specExpr]
+    exact (ihs env n).append (iha env _)
+  · intro ps body ih env n
+    simp only [specExpr]
+    exact (paramBinds_fresh ps n).append (ih _ _)
+  · intro p v ihv env n rest hrest
+    simp only [specItems]
+    exact ((ihv env n).append (patBinds_fresh p _)).append (hrest _ _)
+  · intro e ihe env n rest hrest
+    simp only [specItems]
+    exact (ihe env n).append (hrest _ _)
+  · intro p body ihb env n rest hrest
+    simp only [specArms]
+    exact ((patBinds_fresh p n).append (ihb _ _)).append (hrest _ _)
+  · intro env n; simpa [specList] using Fresh.nil n
+  · intro e es ihe ihes env n
+    simp only [specList]
+    exact (ihe env n).append (ihes env _)
+  · intro env n; simpa [specItems] using Fresh.nil n
+  · intro it rest ihit ihrest env n; exact ihit env n rest ihrest
+  · intro env n; simpa [specArms] using Fresh.nil n
+  · intro a rest iha ihrest env n; exact iha env n rest ihrest
+
+/-- whole functions, implementation model: the binder ids of a function are `0, 1, …` without
+    repetition — each parameter, also a duplicated one, is a binder of its own -/
+theorem binder_ids_fresh (G : Globals) (params : List (String × Nat)) (body : Expr)
+    (h : conOkExpr G (params.map (·.1)) body = true) :
+    (bindIds (resolveFn G params body).out).Nodup := by
+  rw [(resolveFn_refines_spec G params body h).1]
+  have hf : Fresh 0 (specFn G params body).evs (specFn G params body).next := by
+    unfold specFn
+    exact (paramBinds_fresh params 0).append (spec_binder_ids_fresh G body _ _)
+  rw [hf.2]
+  exact List.nodup_range'
 
 /-! ## non-vacuity: a concrete nest that shadows in a block, an arm and a closure -/
 
@@ -313,13 +578,46 @@ def demo : Expr :=
            .exprI (.closure [("a", 40)] (.var "a" 41)),
            .exprI (.var "a" 50) ]
 
-example : (resolveFn [("a", 1)] demo).out =
-    [ .bind 0 1, .use 11 (some 0), .bind 1 10, .use 21 (some 1), .bind 2 20, .use 22 (some 2),
-      .use 30 (some 1), .bind 3 31, .use 32 (some 3), .bind 4 40, .use 41 (some 4),
-      .use 50 (some 1) ] := by decide
+def noGlobals : Globals := { ctors := [], defs := [] }
 
+example : (resolveFn noGlobals [("a", 1)] demo).out =
+    [ .bind 0 1, .use 11 (.loc 0), .bind 1 10, .use 21 (.loc 1), .bind 2 20, .use 22 (.loc 2),
+      .use 30 (.loc 1), .bind 3 31, .use 32 (.loc 3), .bind 4 40, .use 41 (.loc 4),
+      .use 50 (.loc 1) ] := by decide
+
+example : conOkExpr noGlobals ["a"] demo = true := by decide
 example : scopedExpr ["a"] demo = true := by decide
 example : scopedExpr [] (.block [.exprI (.block [.letI (.var "x" 0) (.node [])]), .exprI (.var "x" 1)])
     = false := by decide
+
+/-- `enum Color { red, Blue(int32) }  fn paint() …`:
+    `fn f(red, paint) { red; paint; Blue(red); (|Blue| Blue(red)); green; paint }` with
+    `green` unbound — locals win over the constructor `red`/`Blue` and the function `paint` -/
+def colors : Globals := { ctors := ["red", "Blue"], defs := ["paint", "f"] }
+
+def clash : Expr :=
+  .block [ .exprI (.var "red" 10), .exprI (.var "paint" 11),
+           .exprI (.con "Blue" 12 [.var "red" 13]),
+           .exprI (.closure [("Blue", 20)] (.node [.var "Blue" 21, .var "red" 22])),
+           .exprI (.var "green" 30), .exprI (.var "f" 31) ]
+
+example : conOkExpr colors ["red", "paint"] clash = true := by decide
+example : (resolveFn colors [("red", 1), ("paint", 2)] clash).out =
+    [ .bind 0 1, .bind 1 2, .use 10 (.loc 0), .use 11 (.loc 1), .use 12 .ctor, .use 13 (.loc 0),
+      .bind 2 20, .use 21 (.loc 2), .use 22 (.loc 0), .use 30 .unbound, .use 31 .defn ] := by decide
+/-- without the binders the same names are the constructor and the function -/
+example : (resolveFn colors [] (.node [.var "red" 1, .var "paint" 2])).out =
+    [ .use 1 .ctor, .use 2 .defn ] := by decide
+/-- what the unrepaired lowering produced for `fn f(red) { red }`: a `con` under a binder of its
+    name — `conOk` is false, and the implementation model and the specification differ -/
+example : conOkExpr colors ["red"] (.con "red" 5 []) = false := by decide
+example : (resolveFn colors [("red", 1)] (.con "red" 5 [])).out ≠
+    (specFn colors [("red", 1)] (.con "red" 5 [])).evs := by decide
+/-- `fn f(a, a) { a }`, `|a, a| a`, `let (a, a) = …; a`: two ids, the later binder wins -/
+example : (resolveFn noGlobals [("a", 1), ("a", 2)]
+      (.block [ .exprI (.var "a" 3), .exprI (.closure [("a", 4), ("a", 5)] (.var "a" 6)),
+                .letI (.other [.var "a" 7, .var "a" 8]) (.node []), .exprI (.var "a" 9) ])).out =
+    [ .bind 0 1, .bind 1 2, .use 3 (.loc 1), .bind 2 4, .bind 3 5, .use 6 (.loc 3),
+      .bind 4 7, .bind 5 8, .use 9 (.loc 5) ] := by decide
 
 end Goml.Resolve
